@@ -4,6 +4,7 @@
 set -e
 cd "$(dirname "$0")"
 export CARGO_NET_OFFLINE=true
-(cd coq && coq_makefile -f _CoqProject -o Makefile >/dev/null && timeout 3000 make -j16 >/dev/null 2>coq_build.log || { tail -30 coq_build.log; exit 1; })
+python3 -c "import sys; sys.path.insert(0,'lib'); import vcheck; vcheck.coq_makefile()"
+(cd coq && timeout 3000 make -j16 >/dev/null 2>coq_build.log || { tail -30 coq_build.log; exit 1; })
 (cd harness && timeout 3000 cargo build --offline 2>&1 | tail -3)
 echo setup done
